@@ -406,7 +406,14 @@ func addLayeredEgress(t *rapid.T, w *World) {
 }
 
 func genC02(t *rapid.T) *C02Case {
-	w := GenWorld(t, GenCfg{Admin: true})
+	var w *World
+	if rapid.IntRange(0, 5).Draw(t, "withingress") == 0 {
+		// Ingress/Route objects next to admin policies: the tool's fake ingress-controller pod is a pod like any other for
+		// the layers (an ANP/BANP whose subject covers every namespace governs its egress too)
+		w = GenIngressWorld(t, true)
+	} else {
+		w = GenWorld(t, GenCfg{Admin: true})
+	}
 	if rapid.IntRange(0, 3).Draw(t, "layeredegress") == 0 {
 		addLayeredEgress(t, w)
 	}
@@ -488,6 +495,17 @@ func checkC02(c *C02Case, st *VStats) *VFailure {
 			return vfail("report depends on the order of the ANP documents (perm %v):\n--- original order\n%s\n--- permuted\n%s", c.Perm, res.Rel(), r2.Rel())
 		}
 		st.Class("ANP documents permuted")
+	}
+	if len(w.Ingresses)+len(w.Routes) > 0 {
+		// the {ingress-controller} lines, against the same layered semantics (C10's comparison)
+		if f := checkC10(&C10Case{W: w}, st); f != nil {
+			if f.Sig != "ingress-port-number-matches-targetport" {
+				return f
+			}
+			// the recorded finding F-C10-2 (which ports an Ingress designates) is C10's subject, not a matter of the layers
+			st.Class("F-C10-2 shape met (left to C10)")
+		}
+		st.Class("with Ingress/Route objects")
 	}
 	if c.Eval {
 		if f := evalAgreesRepeated(w, res, st); f != nil {
